@@ -53,11 +53,13 @@ def renderings(req, rng):
         out.append("linspace(" + ", ".join(args) + ")")
         out.append("linspace" + sp() + "(" + sp() + (sp() + "," + sp()).join(args) + sp() + ")")
         out.append("np.linspace(" + ",".join(args) + ")")
+        out.append(rng.choice([" ", "  ", "\t"]) + "linspace(" + ", ".join(args) + ")" + rng.choice([" ", "  ", "\t", " \n"]))      # whitespace around the whole request
     else:
         a, b, st = req["a"], req["b"], req["step"]
         args = [dec(a), dec(b), dec(st)]
         out.append("range(" + ", ".join(args) + ")")
         out.append("arange" + sp() + "(" + (sp() + "," + sp()).join(args) + ")")
+        out.append(rng.choice(["", " "]) + "range(" + ", ".join(args) + ")" + rng.choice([" ", "\t", "  "]))
         if st == 1000:
             out.append("range(" + dec(a) + ", " + dec(b) + ")")
             if a == 0:
@@ -123,6 +125,11 @@ def requests(thorough, rng):
     for a, b in itertools.product(pool, repeat=2):
         for st in (100, 300, 1000) + ((50, 250) if thorough else ()):
             reqs.append(dict(kind="range", a=a, b=b, step=st))
+    # the "stop + a little" idiom for an inclusive end point: the last grid point lies just (1e-3 nm) below the stop
+    for a in pool[:4]:
+        for st, k in ((500, 8), (1000, 3), (300, 5)):
+            reqs.append(dict(kind="range", a=a, b=a + k * st + 1, step=st))
+            reqs.append(dict(kind="range", a=a, b=a + k * st + 50, step=st))
     return reqs
 
 
